@@ -184,6 +184,18 @@ def gen_value(rng, allow_empty=True, ascii_only=False, maxlen=400):
     return v
 
 
+def near_variants(rng, base: bytes):
+    """values "almost equal" to base: letter case, blanks, doubled quotes, trailing controls, Unicode case pairs"""
+    t = base.decode("utf-8")
+    fam = [t, t.upper(), t.lower(), t.swapcase(), t.title(), " " + t, t + " ", t + "  ", t.replace(" ", "  ") if " " in t else t + " x".replace(" ", "  "),
+           t.replace("'", "''") if "'" in t else t + "''", t + "\t", t + "\x01", t + "\n", t.replace("e", "é"), t.replace("é", "É"), t.replace("ss", "ß"),
+           t.capitalize(), t[:-1] + t[-1:].upper(), t[:1].lower() + t[1:]]
+    return rng.choice(fam).encode("utf-8")
+
+
+FAMILY_BASES = [x.encode("utf-8") for x in ["Billing", "utc", "Europe/Paris", "iso, mdy", "My App's é", "latin1", "strasse cafe", "a b"]]
+
+
 def spell(rng, key):
     """spellings of a GUC name in a client SET (PostgreSQL and the mock resolve them case-insensitively)"""
     return rng.choice([key, key, key.lower(), key.upper()])
@@ -232,15 +244,19 @@ def gen_backends(rng, kind):
 class Scn:
     """one scenario: clients with startup packets, a script of client operations, canaries"""
 
-    def __init__(self, rng, pool_size, nclients, nops, classes=(), maxlen=400, mode="transaction", backends=None):
+    def __init__(self, rng, pool_size, nclients, nops, classes=(), maxlen=400, mode="transaction", backends=None, family=False):
         self.pool_size = pool_size
         self.mode = mode      # pool_mode of the pool: "transaction" | "session"
         self.backends = backends or [{"name": "b0", "params": None}]     # servers of the shard (primary, replicas)
+        self.family = None    # {tracked key: base value}: the clients' values for it are near-equal variants of the base
+        self.nprep = 0
         self.clients = []     # dict(name, pairs[(k,v) bytes], flags set)
         self.ops = []         # ("q", ci, [stmt dict]) | ("x", ci, how)
         self.flags = set()
         self.rng = rng
         self.maxlen = maxlen
+        if family:
+            self.family = {k: rng.choice(FAMILY_BASES) for k in TRACKED if k != "standard_conforming_strings" and rng.random() < 0.7}
         for i in range(nclients):
             self.clients.append(self.gen_client(i, classes))
         self.gen_ops(nops)
@@ -251,7 +267,7 @@ class Scn:
         name = "c%d" % i
         pairs = [(b"user", b"u"), (b"database", b"db")]
         flags = set()
-        keys = [k for k in TRACKED if rng.random() < 0.45]
+        keys = [k for k in TRACKED if rng.random() < (0.8 if (self.family and k in self.family) else 0.45)]
         for k in keys:
             r = rng.random()
             if r < 0.55:
@@ -264,6 +280,8 @@ class Scn:
                 sp = "".join(ch.upper() if rng.random() < 0.5 else ch.lower() for ch in k)     # Application_NAME ...
             if k == "standard_conforming_strings":
                 v = rng.choice([b"on", b"off"])
+            elif self.family and k in self.family:
+                v = near_variants(rng, self.family[k])
             else:
                 v = gen_value(rng, allow_empty=True, ascii_only=False, maxlen=self.maxlen)     # empty and non-ASCII included
             pairs.append((sp.encode(), v))
@@ -303,6 +321,8 @@ class Scn:
                 v = (INVALID + "y").encode()
             elif key == "standard_conforming_strings":
                 v = rng.choice([b"on", b"off"])
+            elif self.family and key in self.family and rng.random() < 0.8:
+                v = near_variants(rng, self.family[key])
             else:
                 v = gen_value(rng, maxlen=self.maxlen)
             lit = pg_quote(v, rng.choice([0, 0, 1]))
@@ -317,6 +337,25 @@ class Scn:
             return {"sql": b"RESET " + spell(rng, key).encode() + t, "m": "SReset %s" % cb(mkey.encode()), "fails": False}
         if kind == "resetall":
             return {"sql": b"RESET ALL" + t, "m": "SResetAll", "fails": False}
+        if kind == "copyout":
+            return {"sql": b"COPY t TO STDOUT" + t, "m": "SNoop TgOther", "fails": False}
+        if kind == "copyin":      # the statements behind it in the same query string run after CopyDone
+            return {"sql": b"COPY t FROM STDIN /*mock: copy_continue*/" + t, "m": "SNoop TgOther", "fails": False, "copy": "done"}
+        if kind == "copyfail":    # the client ends the COPY with CopyFail
+            return {"sql": b"COPY t FROM STDIN /*mock: copy_continue*/" + t, "m": "SFail", "fails": True, "copy": "fail"}
+        if kind == "prepare":
+            self.nprep += 1
+            return {"sql": b"PREPARE p%d AS SELECT 1" % self.nprep + t, "m": "SNoop TgPrepare", "fails": False, "untracked": True, "key": "prepared:p%d" % self.nprep, "notxn": True}
+        if kind == "dealloc":     # of the statement prepared just before it in the same message
+            return {"sql": b"DEALLOCATE p%d" % self.nprep + t, "m": "SNoop TgOther", "fails": False}
+        if kind == "deallocall":
+            return {"sql": b"DEALLOCATE ALL" + t, "m": "SNoop TgDeallocAll", "fails": False}
+        if kind == "discardall":
+            return {"sql": b"DISCARD ALL" + t, "m": "SDiscardAll", "fails": False}
+        if kind == "setrole":
+            return {"sql": b"SET ROLE reporting" + t, "m": "SNoop TgSet", "fails": False, "untracked": True, "key": "role"}
+        if kind == "resetrole":
+            return {"sql": b"RESET ROLE" + t, "m": "SNoop TgReset", "fails": False}
         raise ValueError(kind)
 
     def apply_txn(self, c, stmts):
@@ -361,17 +400,30 @@ class Scn:
                 kinds = [rng.choice(["rollback", "rollback", "commit", "select"])]
             elif c["txn"] == "T":
                 n = 1 if rng.random() < 0.8 else 2
-                kinds = [rng.choice(["set", "set", "set", "setlocal", "setlocal", "select", "reset", "resetall", "commit", "commit", "rollback", "rollback", "fail", "setinvalid"]) for _ in range(n)]
+                kinds = [rng.choice(["set", "set", "set", "setlocal", "setlocal", "select", "reset", "resetall", "commit", "commit", "rollback", "rollback", "fail", "setinvalid",
+                                     "copyin", "copyout", "copyfail", "prepare", "prepdealloc", "deallocall", "setrole", "resetrole"]) for _ in range(n)]
             else:
                 n = 1 if rng.random() < 0.7 else rng.choice([2, 3])
-                kinds = [rng.choice(["set", "set", "set", "select", "select", "begin", "begin", "reset", "resetall", "fail", "setinvalid", "commit"]) for _ in range(n)]
+                kinds = [rng.choice(["set", "set", "set", "select", "select", "begin", "begin", "reset", "resetall", "fail", "setinvalid", "commit",
+                                     "copyin", "copyin", "copyout", "copyfail", "prepare", "prepdealloc", "deallocall", "deallocall", "discardall", "setrole", "setrole", "resetrole"]) for _ in range(n)]
             # a failing statement only as the last one of a message; no SET LOCAL outside a block
             stmts = []
             st = c["txn"]
+            ncopy = 0
             for j, k in enumerate(kinds):
-                if k in ("fail", "setinvalid") and len(kinds) > 1:
+                if k in ("fail", "setinvalid", "copyfail", "discardall") and len(kinds) > 1:
                     k = "select"     # a failing statement only alone in its message (implicit-transaction rollback of
-                                     # multi-statement queries is modelled for pgcat's own SET batch only)
+                                     # multi-statement queries is modelled for pgcat's own SET batch only); DISCARD ALL
+                                     # cannot run in a multi-statement query / transaction block
+                if k == "discardall" and st != "I":
+                    k = "deallocall"
+                if k in ("copyin", "copyfail"):
+                    ncopy += 1
+                    if ncopy > 1:
+                        k = "copyout"
+                if k == "prepdealloc":
+                    stmts.append(self.stmt(c, "prepare"))
+                    k = "dealloc"
                 if k == "setlocal" and st != "T":
                     k = "set"
                 if k == "begin":
@@ -418,6 +470,11 @@ class Scn:
             if op[0] == "q":
                 sql = b";".join(s["sql"] for s in op[2])
                 steps.append({"op": "send", "c": c["name"], "msgs": [{"t": "Q", "sql": {"hex": sql.hex()}}]})
+                cp = [s2["copy"] for s2 in op[2] if s2.get("copy")]
+                if cp:
+                    # COPY .. FROM STDIN: CopyInResponse first, then the client's data and CopyDone / CopyFail
+                    steps.append({"op": "recv", "c": c["name"], "until": "G", "timeout_ms": 15000, "label": "c12_copy_g"})
+                    steps.append({"op": "send", "c": c["name"], "msgs": [{"t": "d", "data": "1\tx\n"}, {"t": "c"} if cp[0] == "done" else {"t": "f", "msg": "client gives up"}]})
                 steps.append({"op": "recv", "c": c["name"], "until": "Z", "timeout_ms": 15000})
             elif op[2] == "X":
                 steps.append({"op": "send", "c": c["name"], "msgs": [{"t": "X"}]})
@@ -464,6 +521,7 @@ class Scn:
         s = Scn.__new__(Scn)
         s.pool_size, s.rng, s.maxlen, s.flags, s.mode = j["pool_size"], None, 0, set(), j.get("mode", "transaction")
         s.backends = j.get("backends") or [{"name": "b0", "params": None}]
+        s.family, s.nprep = None, 0
         s.clients = [{"name": c["name"], "pairs": [(bytes.fromhex(k), bytes.fromhex(v)) for k, v in c["pairs"]], "flags": set(c["flags"]),
                       "alive": True, "txn": "I", "n": 0} for c in j["clients"]]
         s.ops = []
@@ -525,15 +583,19 @@ class Obs:
         cur = {}                # conn -> last client item awaiting its `out`
         counters = {}
         pend_sync = {}
+        stash = {}
         for e in evs:
             who, evk = e.get("who"), e.get("ev")
             if evk == "startup_done":
                 self.startup[who] = {"ok": bool(e.get("auth_ok")) and e.get("outcome") == "ok",
                                      "S": {f["k"]: f["v"] for f in e["frames"] if f["t"] == "S"},
                                      "err": [f.get("fields", {}).get("M") for f in e["frames"] if f["t"] == "E"]}
+            elif evk == "recv" and (who in names or who.startswith("z")) and e.get("label") == "c12_copy_g":
+                stash[who] = ([(f["k"], f["v"]) for f in e["frames"] if f["t"] == "S"], e.get("outcome"))
             elif evk == "recv" and (who in names or who.startswith("z")):
-                self.replies.setdefault(who, []).append({"S": [(f["k"], f["v"]) for f in e["frames"] if f["t"] == "S"],
-                                                         "outcome": e.get("outcome"),
+                pre, pre_out = stash.pop(who, ([], "ok"))
+                self.replies.setdefault(who, []).append({"S": pre + [(f["k"], f["v"]) for f in e["frames"] if f["t"] == "S"],
+                                                         "outcome": e.get("outcome") if pre_out == "ok" else "copy-in response missing: " + str(pre_out),
                                                          "Z": [f.get("status") for f in e["frames"] if f["t"] == "Z"]})
             elif evk == "msg" and e.get("tag") == "Q":
                 conn = scn.srv_id(who, e["conn"])
@@ -547,7 +609,9 @@ class Obs:
                     counters[cname] = idx + 1
                     item = {"t": "client", "c": cname, "i": idx, "tracked": {k: e["tracked"].get(k) for k in TRACKED},
                             "dirty": untracked_dirty(e["state"]), "txn": e["state"]["txn"], "sync": pend_sync.pop(conn, None),
-                            "out_S": [], "conn": conn, "sql": sql, "state_gucs": e["state"].get("gucs", [])}
+                            "out_S": [], "conn": conn, "sql": sql,
+                            "state_gucs": e["state"].get("gucs", []) + (["role=%s" % e["state"]["role"]] if e["state"].get("role") else []) +
+                            ["prepared:%s=1" % n for n in e["state"].get("sql_prepared", [])]}
                     tl.append(item)
                     self.order.append(item)
                     self.msgs[(cname, idx)] = item
@@ -563,9 +627,9 @@ class Obs:
                         pend_sync[conn] = d
                         tl.append({"t": "sync", "d": d})
                     elif sql == "ROLLBACK":
-                        tl.append({"t": "clean", "rb": True, "ra": False})
+                        tl.append({"t": "clean", "rb": True, "ra": False, "da": False})
                     elif sql in ("RESET ROLE;", "RESET ROLE;RESET ALL;", "RESET ROLE;RESET ALL;DEALLOCATE ALL;", "RESET ROLE;DEALLOCATE ALL;"):
-                        tl.append({"t": "clean", "rb": False, "ra": "RESET ALL" in sql})
+                        tl.append({"t": "clean", "rb": False, "ra": "RESET ALL" in sql, "da": "DEALLOCATE ALL" in sql})
                     elif sql == ";":
                         pass
                     else:
@@ -582,7 +646,7 @@ class Obs:
             out = []
             for it in tl:
                 if it["t"] == "clean" and out and out[-1]["t"] == "clean" and out[-1]["rb"] and not out[-1]["ra"] and not it["rb"]:
-                    out[-1] = {"t": "clean", "rb": True, "ra": it["ra"]}
+                    out[-1] = {"t": "clean", "rb": True, "ra": it["ra"], "da": it["da"]}
                 else:
                     out.append(it)
             self.timeline[conn] = out
@@ -657,7 +721,7 @@ def monitors(scn, obs):
                 if x.get("txn") in ("commit", "rollback"):
                     intx, failed = False, False
                 if x.get("untracked") and not x["fails"] and not failed:
-                    setter[(conn, x["key"])] = (name, n, intx)
+                    setter[(conn, x["key"])] = (name, n, intx and not x.get("notxn"))
         # the client's expectation follows what the server reported during this message
         rep = obs.replies.get(name, [])
         if it["i"] < len(rep):
@@ -762,7 +826,7 @@ def project_model(scn, val):
             percl[n]["msgs"].append(item)
             persrv.setdefault(s + 1, []).append(item)
         elif k == "CClean":
-            persrv.setdefault(e[1] + 1, []).append({"t": "clean", "rb": cbool(e[2]), "ra": cbool(e[3])})
+            persrv.setdefault(e[1] + 1, []).append({"t": "clean", "rb": cbool(e[2]), "ra": cbool(e[3]), "da": cbool(e[4])})
         elif k == "CReplaced":
             persrv.setdefault(e[1] + 1, []).append({"t": "replaced"})
     return percl, persrv
@@ -813,8 +877,8 @@ def diff_model(scn, obs, val):
                 return "connection %d: observed %s where the model has %s" % (s, x["t"], y["t"])
             if x["t"] == "sync" and x["d"] != y["d"]:
                 return "connection %d: SET batch %r, model %r" % (s, x["d"], y["d"])
-            if x["t"] == "clean" and (x["rb"], x["ra"]) != (y["rb"], y["ra"]):
-                return "connection %d: check-in (rollback,reset_all)=%r, model %r" % (s, (x["rb"], x["ra"]), (y["rb"], y["ra"]))
+            if x["t"] == "clean" and (x["rb"], x["ra"], x["da"]) != (y["rb"], y["ra"], y["da"]):
+                return "connection %d: check-in (rollback,reset_all,deallocate_all)=%r, model %r" % (s, (x["rb"], x["ra"], x["da"]), (y["rb"], y["ra"], y["da"]))
             if x["t"] == "client" and (x["c"], x["i"]) != (y["c"], y["i"]):
                 return "connection %d: message of %s#%d where the model has %s#%d" % (s, x["c"], x["i"], y["c"], y["i"])
     return None
@@ -869,6 +933,7 @@ def boundary_scenarios(rng):
         s = Scn.__new__(Scn)
         s.pool_size, s.rng, s.maxlen, s.flags, s.ops, s.mode = pool_size, rng, 3000, set(), [], mode
         s.backends = backends or [{"name": "b0", "params": None}]
+        s.family, s.nprep = None, 0
         s.clients = [{"name": "c%d" % i, "pairs": [(b"user", b"u"), (b"database", b"db")] + p, "flags": set(f), "alive": True, "txn": "I", "n": 0}
                      for i, (p, f) in enumerate(clients)]
         for o in ops:
@@ -952,6 +1017,38 @@ def boundary_scenarios(rng):
     for v in [NASTY[1], NASTY[3], NONASCII[4], b""]:
         out.append(mk(1, [([(b"application_name", v), (b"Timezone", v)], []), ([], [])],
                       [sel, sel, ("x", 0, "X"), ("q", 1, ["select"]), ("q", 1, [("set", "DateStyle", v, False)]), ("q", 1, ["select"]), ("x", 1, "X")], mode=S))
+    # (a) values that differ "almost not": letter case, blanks, doubled quotes, controls, Unicode case - clients alternating on ONE connection
+    for fam in ([b"Billing", b"billing", b"BILLING"], [b"utc", b"UTC", b"Utc"], [b"a b", b"a  b", b" a b"], [b"it's", b"it''s", b"it's "],
+                ["é".encode(), "É".encode(), b"e"], [b"x", b"x\t", b"x\x01"]):
+        cl = [([(b"application_name", v), (b"TimeZone", v)], []) for v in fam]
+        ops = []
+        for r in range(3):
+            for i in range(len(fam)):
+                ops.append(("q", i, ["select"]))
+        ops += [("q", 0, [("set", "DateStyle", fam[1], False)]), ("q", 1, [("set", "DateStyle", fam[2], False)]), ("q", 2, [("set", "DateStyle", fam[0], False)])]
+        for i in range(len(fam)):
+            ops.append(("q", i, ["select"]))
+        out.append(mk(1, cl, ops))
+    # (b) COPY IN / OUT with tracked SETs before and after it in the same query string, in separate messages, in a block, in session mode
+    for md in ("transaction", S):
+        end = [("x", 0, "X"), ("x", 1, "X")] if md == S else []
+        out.append(mk(1, [([(b"application_name", b"copier")], []), ([], [])],
+                      [("q", 0, [("set", "DateStyle", b"before", False), "copyin", ("set", "TimeZone", b"after'copy", False)]), ("q", 1, ["select"]), ("q", 0, ["select"]),
+                       ("q", 0, ["begin"]), ("q", 0, ["copyin", ("set", "TimeZone", b"in block", False), "copyout"]), ("q", 0, ["select"]), ("q", 0, ["commit"]), ("q", 1, ["select"]), ("q", 0, ["select"]),
+                       ("q", 0, ["copyout", ("set", "application_name", b"after out", False)]), ("q", 0, ["copyfail"]), ("q", 1, ["select"]), ("q", 0, ["select"]),
+                       ("q", 0, ["begin", ("set", "DateStyle", b"d2", False), "copyin"]), ("q", 0, ["copyfail"]), ("q", 0, ["rollback"]), ("q", 1, ["select"]), ("q", 0, ["select"])] + end, mode=md))
+    # (c) the cleanup flags are cleared by check-in only: DEALLOCATE ALL / DISCARD ALL / DEALLOCATE x / PREPARE after SETs and SET ROLE
+    for md in ("transaction", S):
+        end = [("x", 0, "X"), ("x", 1, "X")] if md == S else []
+        one = [("q", 0, [("set", "statement_timeout", b"1", False), "setrole", "deallocall"])] if md != S else \
+              [("q", 0, [("set", "statement_timeout", b"1", False)]), ("q", 0, ["setrole"]), ("q", 0, ["deallocall"])]
+        mid = [("x", 0, "X")] if md == S else []
+        out.append(mk(1, [([], []), ([], []), ([], [])],
+                      one + mid + [("q", 1, ["select"]),
+                       ("q", 1, ["prepare", "dealloc"]), ("q", 1, ["prepare"]), ("q", 1, [("set", "work_mem", b"4MB", False)]), ("q", 1, ["discardall"]), ("q", 1, ["select"])] +
+                      ([("x", 1, "close")] if md == S else []) +
+                      [("q", 2, ["select"]), ("q", 2, ["begin", "prepare"]), ("q", 2, ["setrole"]), ("q", 2, ["commit"]), ("q", 2, [("set", "search_path", b"s", False), "prepare", "deallocall"]), ("q", 2, ["resetrole"])] +
+                      ([("x", 2, "X")] if md == S else []), mode=md))
     # heterogeneous servers (primary + replica, default_role any, pool_size 2): read-only reports differ / tracked defaults differ
     RO = [{"name": "b0", "params": {"readonly": {"server_version": "15.3"}, "by_conn": {"2": {"readonly": {"server_version": "15.4"}}}}},
           {"name": "b1", "params": {"readonly": {"server_version": "14.9", "in_hot_standby": "on", "is_superuser": "on"}}}]
@@ -1053,7 +1150,10 @@ def check(run):
         bk = None
         if rng.random() < 0.3:
             bk, ps = gen_backends(rng, rng.choice(["readonly", "defaults", "both"])), 2
-        scns.append(Scn(rng, ps, nc, rng.randint(6, 16) + (6 if bk else 0), classes if with_class else (), maxlen=1500 if i % 53 == 7 else 400, mode=mode, backends=bk))
+        fam = bk is None and rng.random() < 0.3      # near-equal values of different clients meeting on one connection
+        if fam:
+            ps, nc = 1, rng.choice([2, 3, 3])
+        scns.append(Scn(rng, ps, nc, rng.randint(6, 16) + (6 if bk or fam else 0), classes if with_class else (), maxlen=1500 if i % 53 == 7 else 400, mode=mode, backends=bk, family=fam))
     run.log("%d scenarios (%d hand-made)" % (len(scns), nb))
 
     evals = 0
